@@ -76,7 +76,7 @@ def generate(seed, tier='quick'):
         plan = ['ok'] * nw
         if rng.random() < 0.7:
             plan[rng.randrange(nw if rng.random() < 0.4 else 3)] = rng.choice(
-                ['qerr', 'qerr-reply', 'exc', 'slow', 'slow'])
+                ['qerr', 'qerr-reply', 'exc', 'gtimeout', 'slow', 'slow'])
         if rng.random() < 0.15:
             plan[rng.randrange(nw)] = rng.choice(['qerr', 'slow'])
         scn['write_plan'] = plan
@@ -151,6 +151,11 @@ def faulty_store_class():
                 if what == 'exc':
                     w.fault('write-other-exception')
                     raise IOError('injected non-QueueError write failure')
+                if what == 'gtimeout':
+                    # what a storage driver with its own time limit raises
+                    # (gevent.Timeout is a BaseException, not an Exception)
+                    w.fault('write-gevent-timeout')
+                    raise gevent.Timeout(0.2)
                 id = self.inner.write(envelope, timestamp)
                 rec['ok'] = True
                 rec['id'] = id
@@ -434,8 +439,16 @@ def _wsgi(world, scn, q, result):
     def start_response(status, headers, exc_info=None):
         box['status'] = status
         box['t'] = world.loop._now
-    out = edge(environ, start_response)
-    list(out or ())
+    try:
+        out = edge(environ, start_response)
+        list(out or ())
+    except BaseException as e:
+        if isinstance(e, gevent.GreenletExit):
+            raise
+        # an exception escaping the application: a WSGI server answers 500
+        world.log('WSGI', 'app-raised', type(e).__name__)
+        box['status'] = '500 Internal Server Error'
+        box['t'] = world.loop._now
     st = box.get('status')
     result['code'] = st.split(' ')[0] if st else None
     result['t_reply'] = box.get('t', world.loop._now)
